@@ -135,7 +135,8 @@ LIB_TEXT = "proto lib\n\nconst B1 = 9\n"
 LIA_TEXT = "proto lia\n\nconst B2 = 4\n"
 
 STR_ALPHA = [("a", "a"), (" ", " "), ('\\"', '"'), ("\\\\", "\\"), ("'", "'"), ("\\'", "'"), ("\\t", "\t"), ("\\n", "\n"), ("\\r", "\r"),
-             ("\t", "\t"), ("%", "%"), ("/", "/"), ("*", "*"), ("{", "{"), ("\u00e9", "\u00e9")]
+             ("\t", "\t"), ("%", "%"), ("/", "/"), ("*", "*"), ("{", "{"), ("\u00e9", "\u00e9"),
+             ("\u4e2d", "\u4e2d"), ("\U0001f600", "\U0001f600")]  # BMP and beyond-BMP characters (one code point each, 3 / 4 bytes of UTF-8)
 
 
 def string_space(tier):
@@ -159,6 +160,14 @@ def go_unquote(lit):
             return None
         if ch == "\\":
             i += 1
+            if i < len(s) and s[i] in "uUx":
+                n = {"u": 4, "U": 8, "x": 2}[s[i]]
+                hx = s[i + 1:i + 1 + n]
+                if len(hx) != n or not re.fullmatch(r"[0-9a-fA-F]+", hx) or (s[i] == "x" and int(hx, 16) > 0x7F) or 0xD800 <= int(hx, 16) <= 0xDFFF or int(hx, 16) > 0x10FFFF:
+                    return None  # not a valid Go escape for one code point (surrogate halves are rejected by the Go compiler)
+                out.append(chr(int(hx, 16)))
+                i += n + 1
+                continue
             if i >= len(s) or s[i] not in esc:
                 return None
             out.append(esc[s[i]])
